@@ -39,7 +39,7 @@ ASSUMPTIONS = [
     "writes go to index 0 (plus the model's initialisation write to all indices of a fresh slot), as in the statement",
     "values are small integers stored as floats: additive results are exact, comparison is bitwise",
 ]
-PROBES = ["observation_sparse", "observation_end", "interface_variable_same_name", "interface_variable", "depth_changed_during_run", "shift_none_grows", "shift_on_empty", "additive_after_shift", "alias_probe_get", "alias_probe_set",
+PROBES = ["observation_sparse", "observation_end", "zero_increment", "caller_edits_returned_variable_list", "interface_variable_same_name", "interface_variable", "depth_changed_during_run", "shift_none_grows", "shift_on_empty", "additive_after_shift", "alias_probe_get", "alias_probe_set",
           "rejected_additive_empty", "rejected_negative_index", "rejected_no_index", "rejected_two_indices_get", "rejected_get_beyond_depth",
           "rejected_shift_negative", "rejected_shift_location", "set_both_locations", "integer_dtype_value", "depth_ge3_filled", "init_all_indices", "depth3_window_filled"]
 
@@ -163,6 +163,9 @@ def run_helpers(ch, tr: Trace) -> None:
         if as_int:
             tr.probe("integer_dtype_value")
         v = fresh_value(counter, size, as_int)
+        if additive and ch.flag(1, 4):
+            v = np.zeros_like(v)  # an increment that happens to vanish is still an additive write (and still needs a slot)
+            tr.probe("zero_increment")
         k = {}
         for loc in locs:
             k.update(kw(loc, 0))
@@ -342,7 +345,12 @@ def run_eqsys(ch, tr: Trace) -> None:
         if mode == 4:
             return ["a"], [v for v in atoms if v.name == "a"]  # by name: every variable called "a", on any kind of grid
         if mode == 0:
-            return None, atoms
+            if ch.flag(1, 3):
+                lst = es.variables  # the caller composes a selection by editing the list it was given ...
+                if lst:
+                    lst.pop(ch.draw(len(lst)))
+                tr.probe("caller_edits_returned_variable_list")
+            return None, atoms  # ... and then addresses "all variables"
         if mode == 1:
             return [a], list(a.sub_vars)
         if mode == 2:
@@ -383,6 +391,9 @@ def run_eqsys(ch, tr: Trace) -> None:
         if as_int:
             tr.probe("integer_dtype_value")
         vals = [fresh_value(counter, s, as_int) for s in sizes]
+        if additive and ch.flag(1, 4):
+            vals = [np.zeros_like(x) for x in vals]
+            tr.probe("zero_increment")
         vec = np.concatenate(vals) if vals else np.empty(0)
         if additive and any(model[(loc, v.id)].n == 0 for loc in locs for v in vs):
             # partially applied additive writes across several variables are outside the statement; only issue the
